@@ -202,6 +202,7 @@ class SymSim(mosaik_api_v3.Simulator):
         self.n = 0
         self.t = None
         self.finalized = 0
+        self._log = CTX['log']      # a simulator object outliving its run (remote side, garbage collection) keeps writing to its own log
         return self.meta
 
     def create(self, num, model):
@@ -277,7 +278,8 @@ class SymSim(mosaik_api_v3.Simulator):
 
     def finalize(self):
         self.finalized += 1
-        CTX['log'].append(('finalize', self.sid))
+        log = getattr(self, '_log', None)
+        (log if log is not None else CTX['log']).append(('finalize', getattr(self, 'sid', None)))
 
 
 # ---------------------------------------------------------------------------
@@ -428,6 +430,7 @@ class Run:
         self.log = None
         self.world = None
         self.until = None
+        self.closed_by_run = None     # whether World.run() itself left the event loop closed
 
 
 def run_world(eng, topo, cfg, behaviour=None, hook=None, fault=None, rules=None, var_prefix='', run_kwargs=None,
@@ -471,6 +474,8 @@ def run_world(eng, topo, cfg, behaviour=None, hook=None, fault=None, rules=None,
             build(w, ref, topo, eng, cfg)
             if ref is not None:
                 ref.start(until)
+            if CTX.get('before_run') is not None:
+                CTX['before_run'](w, loop)
             loop.active = True
             try:
                 rk = dict(print_progress=False, lazy_stepping=cfg.get('lazy', True))
@@ -490,6 +495,7 @@ def run_world(eng, topo, cfg, behaviour=None, hook=None, fault=None, rules=None,
                 r.outcome = 'exc:' + type(e).__name__
             finally:
                 loop.active = False
+                r.closed_by_run = loop.is_closed()
         finally:
             if not loop.is_closed():
                 try:
